@@ -885,3 +885,70 @@ pub fn err_class(e: &ThriftException) -> String {
         ThriftException::Transport(t) => format!("transport:{:?}", t.kind()),
     }
 }
+
+// ------------------------------------------------------------------------------------------
+// dispatch macros over the concrete protocol types
+
+/// `with_in!(prot, &mut bytes, p => expr)` — expr is evaluated with `p` bound to a fresh reader
+#[macro_export]
+macro_rules! with_in {
+    ($prot:expr, $b:expr, $p:ident => $body:expr) => {
+        match $prot {
+            $crate::drive::Prot::Binary => {
+                let mut $p = pilota::thrift::binary::TBinaryProtocol::new($b, false);
+                $body
+            }
+            $crate::drive::Prot::BinaryLe => {
+                let mut $p = pilota::thrift::binary_le::TBinaryProtocol::new($b, false);
+                $body
+            }
+            $crate::drive::Prot::Compact => {
+                let mut $p = pilota::thrift::compact::TCompactInputProtocol::new($b);
+                $body
+            }
+            $crate::drive::Prot::Unsafe => {
+                let mut $p = unsafe { pilota::thrift::binary_unsafe::TBinaryUnsafeInputProtocol::new($b) };
+                $body
+            }
+        }
+    };
+}
+
+/// `with_out!(prot, &mut bytesmut, window, p => expr)` — BytesMut-backed writer. For the unchecked
+/// writer the BytesMut is resized to `window + SLACK` painted bytes first and truncated to
+/// `index()` afterwards.
+#[macro_export]
+macro_rules! with_out {
+    ($prot:expr, $b:expr, $window:expr, $p:ident => $body:expr) => {
+        match $prot {
+            $crate::drive::Prot::Binary => {
+                let mut $p = pilota::thrift::binary::TBinaryProtocol::new($b, false);
+                $body
+            }
+            $crate::drive::Prot::BinaryLe => {
+                let mut $p = pilota::thrift::binary_le::TBinaryProtocol::new($b, false);
+                $body
+            }
+            $crate::drive::Prot::Compact => {
+                let mut $p = pilota::thrift::compact::TCompactOutputProtocol::new($b, false);
+                $body
+            }
+            $crate::drive::Prot::Unsafe => {
+                let bm: &mut bytes::BytesMut = $b;
+                let cap = $window + $crate::drive::SLACK;
+                bm.resize(cap, $crate::drive::SENTINEL);
+                let s: &'static mut [u8] = unsafe { std::slice::from_raw_parts_mut(bm.as_mut_ptr(), cap) };
+                let idx;
+                let r = {
+                    let mut $p =
+                        unsafe { pilota::thrift::binary_unsafe::TBinaryUnsafeOutputProtocol::new(&mut *bm, s, false) };
+                    let r = $body;
+                    idx = $p.index();
+                    r
+                };
+                bm.truncate(idx.min(cap));
+                r
+            }
+        }
+    };
+}
